@@ -145,6 +145,10 @@ def run(rep, facts, tier):
     rep.check(ok, 'R01.14', 'process_received_data/reception-recorded', 'proxy found => received_changes_add(writer_sn) before make_cache_change, on every path',
               'process_received_data can store a sample of a matched writer without recording its sequence number in the writer proxy: the reliable frontier never passes it', pr.where())
     rule_stored(rep, fx)
+    # R01.16 / R01.17: the way from the datagram to this Reader (shared with C02 R02.24 / R02.25)
+    from rules import dispatch
+    dispatch.run_rule(rep, fx, 'R01.16', 'default', floor=1)
+    dispatch.run_kinds(rep, fx, 'R01.17', 'default')
     si = fx.find('rtps::rtps_writer_proxy::RtpsWriterProxy::should_ignore_change')
     rep.analysed(si)
     ogs = Origins(si, summaries=True)
